@@ -9,6 +9,7 @@ Decides absence of the static sources of run-to-run variation on the generation 
    values of dicts of sets, names narrowed by `isinstance(v, set)` / `is_set(type(v))`) becomes observable - a `for`, a list / generator comprehension, list(),
    tuple(), OrderedSet(), join(), pop(), next(iter()) - is either consumed by an order-insensitive
    construct, wrapped in sorted(), or is one of the sites read and frozen in TRIAGE with a reason.
+ * C16.hash-value: hash() values only feed __hash__ or a cached hash attribute.
 Determinism of the module under test, of dict orders derived from module namespaces, and of thread
 timing is not decided.
 """
